@@ -181,6 +181,52 @@ func ruleEmptyIsAbsent(r *Report) {
 			ok = true
 		}
 	}
+	// the test kept in a variable (found := err == nil && len(v) > 0) and branched on later: the value is handed out only
+	// where that variable decides — every return of the table value is control dependent on a block that tests a value
+	// computed from the length comparison
+	if !ok {
+		var cmps []ssa.Value
+		eachInstr(fn, func(s Site) {
+			if bo, isB := s.Instr.(*ssa.BinOp); isB {
+				if _, isZ := lenZeroTest(bo, func(v ssa.Value) bool { return v == val }); isZ {
+					cmps = append(cmps, bo)
+				}
+			}
+		})
+		if len(cmps) > 0 {
+			guarded, n := true, 0
+			for _, rs := range returnsOf(fn) {
+				ret := rs.Instr.(*ssa.Return)
+				if len(ret.Results) == 0 || !valueDependsOn(ret.Results[0], func(x ssa.Value) bool { return x == val }) {
+					continue
+				}
+				n++
+				dep := false
+				for _, b := range liveBlocks(fn) {
+					cnd, _, _, _, _, isIf := effCond(b)
+					if !isIf || !dominates(b, rs.Block) || b == rs.Block {
+						continue
+					}
+					if valueDependsOn(cnd, func(x ssa.Value) bool {
+						for _, c := range cmps {
+							if x == c {
+								return true
+							}
+						}
+						return false
+					}) {
+						dep = true
+					}
+				}
+				if !dep {
+					guarded = false
+				}
+			}
+			if guarded && n > 0 {
+				ok = true
+			}
+		}
+	}
 	if ok {
 		r.OK(rule, key, tg[0].Pos(), "len(table value) == 0 → not found")
 	} else {
@@ -720,7 +766,8 @@ func ruleBloomSizePositive(r *Report) {
 	p := r.P
 	n := 0
 	for _, fn := range p.FuncsOfPkg("simpledb") {
-		for _, s := range CallsIn(fn, Keys("sstables.BloomExpectedNumberOfElements")) {
+		// (the call of a newly extracted helper that sets the count is judged in the helper)
+		for _, s := range directOnly(CallsIn(fn, Keys("sstables.BloomExpectedNumberOfElements"))) {
 			n++
 			r.Saw(fn)
 			key := ef0uniq(rule + "/" + FuncKey(fn))
@@ -1320,7 +1367,7 @@ func ruleReaderPath(r *Report) {
 	}
 	for _, fn := range p.FuncsOfPkg("simpledb") {
 		n := 0
-		for _, s := range CallsIn(fn, Keys("sstables.NewSSTableReader")) {
+		for _, s := range directOnly(CallsIn(fn, Keys("sstables.NewSSTableReader"))) {
 			// the ReadBasePath option among the variadic arguments
 			var pathArg ssa.Value
 			eachInstr(fn, func(t Site) {
@@ -1879,6 +1926,96 @@ func ruleSyncFailureRollsBack(r *Report) {
 						reset = true
 					}
 				})
+				// … or a method of the writer that is handed the same offset and sets currentOffset from it (the
+				// writer's own Seek, which takes the position the buffered writer reports for that offset)
+				if !reset {
+					eachInstr(f, func(x Site) {
+						c, isC := x.Instr.(*ssa.Call)
+						if !isC {
+							return
+						}
+						g := c.Call.StaticCallee()
+						if g == nil || !inModule(g) || g.Signature.Recv() == nil || len(g.Blocks) == 0 {
+							return
+						}
+						for ai, a := range c.Call.Args {
+							if ai == 0 || ai >= len(g.Params) || stripConvert(a) != arg {
+								continue
+							}
+							pa := g.Params[ai]
+							eachInstr(g, func(y Site) {
+								st, isS := y.Instr.(*ssa.Store)
+								if !isS {
+									return
+								}
+								ty, fld, _, isF := fieldAddrName(st.Addr)
+								if !isF || ty != "recordio.FileWriter" || fld != "currentOffset" {
+									return
+								}
+								v := stripConvert(st.Val)
+								if v == ssa.Value(pa) {
+									reset = true
+									return
+								}
+								if ex, isE := v.(*ssa.Extract); isE {
+									v = ex.Tuple
+								}
+								if sc, isCall := v.(*ssa.Call); isCall {
+									nm := ""
+									if sc.Call.IsInvoke() {
+										nm = sc.Call.Method.Name()
+									} else if h := sc.Call.StaticCallee(); h != nil {
+										nm = fnName(h)
+									}
+									if as := argsOf(sc); nm == "Seek" && len(as) > 0 && stripConvert(as[0]) == ssa.Value(pa) {
+										reset = true
+									}
+								}
+							})
+						}
+					})
+				}
+				// the position of the buffered writer goes where the file was cut: a Seek of the undo that targets
+				// anything else (the writer's Size(), which is still the old offset at that point) leaves the position
+				// behind a hole of zeros — the next record lands there and replay stops at the hole
+				skey := rule + "/" + FuncKey(f) + "/position-follows-truncation"
+				var seeks []Site
+				eachInstr(f, func(x Site) {
+					c, isC := x.Instr.(*ssa.Call)
+					if !isC {
+						return
+					}
+					name := ""
+					if c.Call.IsInvoke() {
+						name = c.Call.Method.Name()
+					} else if sc := c.Call.StaticCallee(); sc != nil {
+						name = fnName(sc)
+					}
+					if name != "Seek" {
+						return
+					}
+					if _, fld, _, isF := loadOfField(argsRecv(c)); isF && fld == "bufWriter" {
+						seeks = append(seeks, x)
+					}
+				})
+				if len(seeks) > 0 {
+					same := true
+					for _, sk := range seeks {
+						a := argsOf(sk.Call())
+						if len(a) == 0 {
+							continue
+						}
+						tgt := stripConvert(a[0])
+						if tgt != arg && !(paramOrigin(tgt) != nil && paramOrigin(tgt) == paramOrigin(arg)) {
+							same = false
+						}
+					}
+					if same {
+						r.OK(rule, skey, t.Pos(), "the writer's position is moved to the truncation point")
+					} else {
+						r.Bad(rule, skey, seeks[0].Pos(), "the undo truncates the file at one offset and moves the writer's position to another (the writer's size before the undo, not the start of the rejected record): the next record is written behind a hole of zeros, and replay of that file fails with a magic number mismatch")
+					}
+				}
 				if reset {
 					r.OK(rule, okey, t.Pos(), "currentOffset is set back to the truncation point")
 				} else {
@@ -1893,19 +2030,37 @@ func ruleSyncFailureRollsBack(r *Report) {
 	{
 		ukey := rule + "/recordio.FileWriter.WriteSync/undo-failure-reaches-close"
 		field := ""
-		for _, t := range trunc {
-			_, fail := errorEdges(t)
-			for _, e := range fail {
-				reach := reachFrom(e.To, nil)
-				eachInstr(fn, func(x Site) {
-					st, isS := x.Instr.(*ssa.Store)
-					if !isS || !reach[x.Block] || !isErrorType(st.Val.Type()) {
-						return
-					}
-					if ty, f, _, isF := fieldAddrName(st.Addr); isF && ty == "recordio.FileWriter" {
-						field = f
-					}
+		// in WriteSync itself, or in a helper it hands the undo to (newly extracted, or the truncating helper)
+		scope := []*ssa.Function{fn}
+		for _, g := range moduleReach(p, []*ssa.Function{fn}) {
+			if pk := fnPkg(g); pk != nil && shortPkg(pk.Path()) == "recordio" && g != fn && (isFresh(g) || strings.Contains(strings.ToLower(fnName(g)), "trunc")) {
+				scope = append(scope, g)
+			}
+		}
+		for _, g := range scope {
+			ts := trunc
+			if g != fn {
+				ts = CallsIn(g, func(k string) bool {
+					return k == "os.File.Truncate" || strings.Contains(strings.ToLower(k), "trunc")
 				})
+			}
+			for _, t := range ts {
+				if t.Fn != g {
+					continue
+				}
+				_, fail := errorEdges(t)
+				for _, e := range fail {
+					reach := reachFrom(e.To, nil)
+					eachInstr(g, func(x Site) {
+						st, isS := x.Instr.(*ssa.Store)
+						if !isS || !reach[x.Block] || !isErrorType(st.Val.Type()) {
+							return
+						}
+						if ty, f, _, isF := fieldAddrName(st.Addr); isF && ty == "recordio.FileWriter" {
+							field = f
+						}
+					})
+				}
 			}
 		}
 		cl := p.Func("recordio.FileWriter.Close")
@@ -2341,4 +2496,15 @@ func ruleBufferSizesBounded(r *Report) {
 			r.Bad(rule, key, fn.Pos(), "the option "+f+" reaches make([]byte, int(n)) unchecked: with 1<<62, 1<<63 or math.MaxUint64 NewSimpleDB, Open and Put return nil and the flusher goroutine panics at the first flush (makeslice: len out of range) — the process ends on a valid workload")
 		}
 	}
+}
+
+// argsRecv: the receiver of a method call (the interface value of an invoke, the first argument of a static method call).
+func argsRecv(c *ssa.Call) ssa.Value {
+	if c.Call.IsInvoke() {
+		return c.Call.Value
+	}
+	if sc := c.Call.StaticCallee(); sc != nil && sc.Signature.Recv() != nil && len(c.Call.Args) > 0 {
+		return c.Call.Args[0]
+	}
+	return nil
 }
